@@ -233,6 +233,13 @@ def rebuiltMembers : List String := ["name", "line_info", "file_info"]
 def modelIntptrOperands : List String :=
   ["(intptr_t)PROG_STRING (pn->r.number)", "(intptr_t) 0", "(intptr_t) pn->r.expr"]
 
+/-- the pointers stored INSIDE the saved block (elements of the tables the 13 relocated members point at): the name of
+    every function, the program of every inherit entry, every string and every variable name.  They are meaningless in
+    the file; `load_binary` re-creates each one from the name sections / the loaded parents.  Everything else in the
+    block is an index, a count or a code offset. -/
+def modelBlockPointers : List String :=
+  ["compiler_function_t.name", "inherit_t.prog", "strings[]", "variable_table[]"]
+
 /-- statements of qSort + quickSort that NV/C17/QSort.lean mirrors -/
 def modelQsortStatements : Nat := 13
 
